@@ -16,8 +16,8 @@ def g(fam, **kw):
     return ['%s:%s:%d' % (fam, name, n) for name, n in kw.items()]
 
 
-V1_QUICK = g('stream', v1good=150, v1corrupt=120, v1struct=120, v1mutate=200, v1trunc=10, v1len=25, v1max=75, v1adj=96, v1lenient=1, v1words=170, v1unicode=156, v1extra=340, v1prefix=66, known=140, v1straddle=132, v1ipfield=40, v1crsame=119, v1junk=80, v1cr=60, bytes=40)
-V1_THOROUGH = g('stream', v1good=4000, v1corrupt=4000, v1struct=3000, v1mutate=8000, v1trunc=300, v1len=400, v1max=700, v1adj=6144, v1lenient=1, v1words=170, v1unicode=156, v1extra=340, v1prefix=66, known=2000, v1straddle=132, v1ipfield=1500, v1crsame=119, v1junk=2500, v1cr=1500, bytes=1000)
+V1_QUICK = g('stream', v1good=150, v1corrupt=120, v1struct=120, v1mutate=200, v1trunc=10, v1len=25, v1max=75, v1adj=96, v1lenient=1, v1words=170, v1unicode=156, v1extra=340, v1prefix=66, known=140, v1straddle=231, v1ipfield=40, v1crsame=119, v1junk=80, v1cr=60, bytes=40)
+V1_THOROUGH = g('stream', v1good=4000, v1corrupt=4000, v1struct=3000, v1mutate=8000, v1trunc=300, v1len=400, v1max=700, v1adj=6144, v1lenient=1, v1words=170, v1unicode=156, v1extra=340, v1prefix=66, known=2000, v1straddle=231, v1ipfield=1500, v1crsame=119, v1junk=2500, v1cr=1500, bytes=1000)
 V2_QUICK = g('stream', v2good=120, v2corrupt=150, v2mutate=250, bparse=150, v2ctrl=700, v2len=330, v2sig=60, v2sigmulti=150, v2halves=75, reuse=24, known=140, mixed=80, bytes=40, huge=4)
 V2_THOROUGH = g('stream', v2good=3000, v2corrupt=4000, v2mutate=8000, bparse=4000, v2ctrl=65536, v2len=2500, v2sig=3060, v2sigmulti=800, v2halves=300, reuse=400, known=2000, mixed=2000, bytes=1000, huge=60)
 IPTEXT_QUICK = g('iptext', iprand=400)
@@ -189,8 +189,8 @@ PROPS = {
              'an Incomplete or Partial verdict; distinct = distinct inputs',
     ),
     'C18': dict(
-        gens=dict(quick=g('stream', v1struct=300, v1trunc=30, v1mutate=200, v1len=40, v1cr=120, v1corrupt=100, v1junk=100, v1adj=96, v1extra=340, v1straddle=132, v1crsame=119),
-                  thorough=g('stream', v1struct=8000, v1trunc=900, v1mutate=8000, v1len=600, v1cr=3000, v1corrupt=3000, v1junk=3000, v1adj=6144, v1extra=340, v1straddle=132, v1crsame=119)),
+        gens=dict(quick=g('stream', v1struct=300, v1trunc=30, v1mutate=200, v1len=40, v1cr=120, v1corrupt=100, v1junk=100, v1adj=96, v1extra=340, v1straddle=231, v1crsame=119),
+                  thorough=g('stream', v1struct=8000, v1trunc=900, v1mutate=8000, v1len=600, v1cr=3000, v1corrupt=3000, v1junk=3000, v1adj=6144, v1extra=340, v1straddle=231, v1crsame=119)),
         models=[MC_V1, MC_V1_LIVE],
         rule='stream events whose buffer has a byte after its first CR, or >= 107 bytes and no CR; distinct = distinct inputs',
     ),
